@@ -29,10 +29,12 @@ def runCand (fn : String) (y : Nat) (rest : List String) : String :=
   | "mdall", [a, b] => out do fillYlyMdAll [] y ((← nl a).take 12) (← wd b)
   | "ycw", [a] => out do fillYlyYcw [] y (← il a)
   | "ydall", [a] => out do fillYlyYdAll [] y (← wd a)
-  | "yd", [a, b] => out do fillYlyYd [] y (← il a) (← wd b)
-  | "ymdallm", [a, b] => out do fillYlyYmdAllM [] y ((← il a).take 62) (← wd b)
+  | "yd", [a, b, c, d] => out do fillYlyYd [] y (← il a) (← il b) (← wd c) ((d.headD "0") != "0")
+  | "ymdallm", [a, b, c] => out do fillYlyYmdAllM [] y ((← il a).take 62) (← il b) (← wd c)
+  | "lim", [a, b, c, d, e, f] => out do
+      limCand ((← nl a).foldl assC []) y (← nl b) (← il c) (← il d) (← il e) (← il f)
   | "ymdalld", [a, b] => out do fillYlyYmdAllD [] y ((← nl a).take 12) (← wd b)
-  | "ymd", [a, b, c] => out do fillYlyYmd [] y ((← nl a).take 12) ((← il b).take 62) (← wd c)
+  | "ymd", [a, b, c, d] => out do fillYlyYmd [] y ((← nl a).take 12) ((← il b).take 62) (← il c) (← wd d)
   | _, _ => "bad-op"
 
 def runRrule (op : String) (args : List String) : String :=
